@@ -39,12 +39,14 @@ structure Ty where
 
 inductive DefVal where
   | plain (s : String)
-  | identity (always : Bool) (start : Option Nat)
+  /-- `extra`: the further identity options that are set, as (attribute name, value) pairs sorted by attribute name
+  (`nominvalue`, `nomaxvalue`, `cycle`, `cache`, `minvalue`, `maxvalue`, `increment`) -/
+  | identity (always : Bool) (start : Option Nat) (extra : List (String × String))
   | computed (s : String)
   deriving DecidableEq, Repr
 
 def DefVal.isIdentity : DefVal → Bool
-  | .identity _ _ => true
+  | .identity _ _ _ => true
   | _ => false
 
 def DefVal.isComputed : DefVal → Bool
@@ -144,13 +146,14 @@ inductive Stmt where
   inner `alter table` -/
   | mssqlDropDefault (t : TRef) (obj : TRef) (col : String)
   /-- PG `ALTER COLUMN c ADD GENERATED ... AS IDENTITY (...)` -/
-  | identityAdd (t : TRef) (col : String) (always : Bool) (start : Option Nat)
+  | identityAdd (t : TRef) (col : String) (always : Bool) (start : Option Nat) (extra : List (String × String))
   /-- `ALTER COLUMN c DROP IDENTITY`, Oracle `MODIFY c DROP IDENTITY` -/
   | identityDrop (t : TRef) (col : String)
   /-- PG `ALTER COLUMN c [SET GENERATED ALWAYS|BY DEFAULT ][SET START WITH n ]` -/
   | identityAlter (t : TRef) (col : String) (setAlways : Option Bool) (setStart : Option Nat)
+      (setExtra : List (String × String))
   /-- Oracle `MODIFY c GENERATED ALWAYS|BY DEFAULT AS IDENTITY [(START WITH n)]` -/
-  | identitySet (t : TRef) (col : String) (always : Bool) (start : Option Nat)
+  | identitySet (t : TRef) (col : String) (always : Bool) (start : Option Nat) (extra : List (String × String))
   /-- `ALTER TABLE t DROP CONSTRAINT n` (schema-type constraint of the existing type) -/
   | dropConstraint (t : TRef) (name : String)
   /-- `ALTER TABLE t ADD [CONSTRAINT n] CHECK (c ...)` (schema-type constraint of the new type) -/
